@@ -436,7 +436,7 @@ func (s *scanner) stateEndTop(c byte) (state, error) {
 		return scanSkip, nil
 
 	case s.isAnnotationStart(c):
-		if s.lengthComputing && s.index < s.dataSize && s.data[s.index] != '/' && s.data[s.index] != '*' {
+		if s.lengthComputing && (s.index >= s.dataSize || (s.data[s.index] != '/' && s.data[s.index] != '*')) {
 			// A slash that doesn't begin `//` or `/*` can't continue the rule:
 			// it is the first byte after it (ex: `/cats` in "[1]\n/cats").
 			s.found(lexeme.EndTop)
